@@ -62,6 +62,13 @@ def make_chunks(seed, k, n):
         for j in range(1, n):
             pj = pipecheck.twin_prms(rng, prms0, j)
             out[j] = (list(rows0), pj)
+    if k % 5 == 3 and n >= 2:
+        # one list object (a fleet-wide exclusion list) referenced from the per-call dictionary of every chunk of the set,
+        # naming ceilometers that some chunks have and others do not
+        names_all = sorted({r[0] for rows_, _ in out for r in rows_})
+        some = sorted({r[0] for r in out[0][0]})
+        shared = [some[-1]] + [c for c in names_all if c not in some][:1] + ['not-here']
+        out = [(rows_, dict(prms_, EXCLUDE_FOR_BASE_HEIGHT_CALC=shared)) for rows_, prms_ in out]
     if k % 5 == 2:
         # every chunk of the set in the same non-canonical spelling; ceilometer ids 1, 2, ... (as ints) and one of them
         # excluded from the base heights, so that the normalisation matters for the result
